@@ -338,12 +338,12 @@ def _append_branch(
         d = data._branch[key]
         # ...if this node doesn't exist in the H5, do a simple write
         if d.name not in groupkeys:
-            _write_single_node(
+            new_group = _write_single_node(
                 group,
                 d
             )
             _write_tree(
-                group,
+                new_group,
                 d
             )
         # otherwise, overwrite or skip it, then call this fn again
